@@ -107,7 +107,9 @@ def run_property(chk: Check, pid: str, props_module: str, theorems: List[str], m
             # unmonitored histories: only liveness (C03) and per-connection stream checks make sense
             ob = O.Obs(r, h)
             for name in checkers:
-                if name in ("C03",):
+                # liveness (C03) and the per-connection stream rules of C05 (sequence numbers, declared lengths, publish
+                # order) need no monitor and no simulation of who is connected: they are evaluated on every history
+                if name in ("C03", "C05"):
                     for key, desc in O.CHECKERS[name](h, {}, O.Expect(), ob):
                         chk.spec_failure(key=key, desc=desc, replay=dict(history=h.case_json(), kind=k, events=h.cevents, pickle=base64.b64encode(pickle.dumps(h)).decode()))
             continue
